@@ -119,6 +119,24 @@ SetVar(S, name, v) ==
          IF i > 0 THEN [S EXCEPT !.scopes[i] = Bind(@, name, v)]
          ELSE [S EXCEPT !.glob = Bind(@, name, v)]
 
+\* ---------------------------------------------------------------- fmt.Sprint / fmt.Sprintf on scalars
+\* %v rendering of a string, boolean or signed / 8-bit integer value (bytes)
+RenderV(v) == CASE v.t = "str"  -> v.s
+                [] v.t = "bool" -> IF v.b THEN <<116, 114, 117, 101>> ELSE <<102, 97, 108, 115, 101>>
+                [] v.t = "int"  -> LibItoa(v.v)
+\* Sprint: operands are separated by a space when neither neighbour is a string
+RECURSIVE SprintFrom(_, _)
+SprintFrom(vs, i) == IF i > Len(vs) THEN <<>>
+                     ELSE (IF i > 1 /\ vs[i - 1].t # "str" /\ vs[i].t # "str" THEN <<32>> ELSE <<>>) \o RenderV(vs[i]) \o SprintFrom(vs, i + 1)
+\* Sprintf with the verbs %d %s %v %t and %%; the k-th verb consumes the k-th operand
+RECURSIVE SprintfFrom(_, _, _, _)
+SprintfFrom(f, i, vs, k) ==
+    IF i > Len(f) THEN <<>>
+    ELSE IF f[i] = 37 /\ i < Len(f) THEN
+         (IF f[i + 1] = 37 THEN <<37>> \o SprintfFrom(f, i + 2, vs, k)
+          ELSE RenderV(vs[k]) \o SprintfFrom(f, i + 2, vs, k + 1))
+    ELSE <<f[i]>> \o SprintfFrom(f, i + 1, vs, k)
+
 \* ---------------------------------------------------------------- stack helpers
 TopN(vals, n) == [i \in 1..n |-> vals[n + 1 - i]]        \* the top n values, oldest first
 DropN(vals, n) == SubSeq(vals, n + 1, Len(vals))
@@ -293,7 +311,7 @@ ExecStmt(S, n, rest) ==
       [] s.k = "yield" ->       \* a top-level expression statement: its value is what Eval returns if it is the last one
             [S EXCEPT !.ctl = <<ExprI(s.e), [k |-> "doyield"]>> \o rest]
       [] s.k = "print" ->
-            [S EXCEPT !.ctl = ExprItems(s.args) \o <<[k |-> "doprint", nargs |-> Len(s.args), ln |-> s.ln]>> \o rest]
+            [S EXCEPT !.ctl = ExprItems(s.args) \o <<[k |-> "doprint", nargs |-> Len(s.args), ln |-> s.ln, fmtp |-> s.fmtp]>> \o rest]
       [] s.k = "block" -> Block(S, s.body, rest)
       [] s.k = "if" ->
             [S EXCEPT !.scopes = <<EmptyScope>> \o S.scopes,
@@ -457,6 +475,8 @@ Steps(S) ==
                      [] it.fn = "strings.Replace"    -> push(StrV(LibReplace(a[1].s, a[2].s, a[3].s, a[4].v)))
                      [] it.fn = "strings.Join"       -> push(StrV(LibJoin([i \in 1..a[1].len |-> ElemsOf(S, a[1])[i].s], a[2].s)))
                      [] it.fn = "strconv.Itoa"       -> push(StrV(LibItoa(a[1].v)))
+                     [] it.fn = "fmt.Sprint"         -> push(StrV(SprintFrom(a, 1)))
+                     [] it.fn = "fmt.Sprintf"        -> push(StrV(SprintfFrom(a[1].s, 1, Tail(a), 1)))
                      [] it.fn = "strings.Split"      ->
                             LET parts == LibSplit(a[1].s, a[2].s) IN
                             [S2 EXCEPT !.heap = Append(@, [k |-> "arr", elems |-> [i \in 1..Len(parts) |-> StrV(parts[i])]]),
@@ -524,7 +544,7 @@ Steps(S) ==
             IN Ret(IF cur.t = "panic" THEN PanicState(S2, cur.kind, s.line)
                    ELSE Store(S2, s.lhs, ops, IntV(cur.ty, Bin(cur.ty, IF s.d > 0 THEN "+" ELSE "-", cur.v, 1)), s.line))
       [] it.k = "doprint" ->
-            Ret([S EXCEPT !.out = Append(@, [ln |-> it.ln, vs |-> TopN(S.vals, it.nargs)]), !.vals = DropN(@, it.nargs), !.ctl = rest])
+            Ret([S EXCEPT !.out = Append(@, [ln |-> it.ln, fmtp |-> it.fmtp, vs |-> TopN(S.vals, it.nargs)]), !.vals = DropN(@, it.nargs), !.ctl = rest])
       [] it.k = "doyield" ->
             Ret([S EXCEPT !.last = <<v1>>, !.vals = DropN(@, 1), !.ctl = rest])
       [] it.k = "dopanic" ->
@@ -608,7 +628,7 @@ OutVal(v) == CASE v.t = "int" -> [t |-> "int", ty |-> v.ty, v |-> v.v]
                [] v.t = "bool" -> [t |-> "bool", ty |-> "", v |-> IF v.b THEN 1 ELSE 0]
                [] v.t = "str" -> [t |-> "str", ty |-> "", v |-> 0, s |-> v.s]
                [] OTHER -> [t |-> v.t, ty |-> "", v |-> IF IsNilVal(v) THEN 0 ELSE 1]
-OutEvent(e) == [ln |-> e.ln, vs |-> [i \in DOMAIN e.vs |-> OutVal(e.vs[i])]]
+OutEvent(e) == [ln |-> e.ln, fmtp |-> e.fmtp, vs |-> [i \in DOMAIN e.vs |-> OutVal(e.vs[i])]]
 Behaviour == [prog |-> Progs[p].id, ch |-> st.ch, out |-> [i \in DOMAIN st.out |-> OutEvent(st.out[i])],
               status |-> st.status.s,
               kind |-> IF st.status.s = "panic" THEN st.status.kind ELSE "",
